@@ -356,7 +356,7 @@ def run_bounded(ctx):
             ctx.notes.append(f"bounded:train-followup-pairs: pairs skipped because the training materialization failed: {failed}")
         rep.close()
 
-    n_random = 6000 if ctx.thorough else 600
+    n_random = 30000 if ctx.thorough else 600
     with ctx.bounded(
         "random-pairs",
         rule="seeded random (training, follow-up) pairs: 2..5 levels, 4..12 training rows, 1..12 follow-up rows, random "
